@@ -75,7 +75,7 @@ REPEATABLE = {1, 4, 8, 11, 15, 20, 292}
 
 def plan(tier, seed):
     n = 16
-    per = {"quick": 110, "thorough": 3300}[tier]
+    per = {"quick": 100, "thorough": 3000}[tier]
     return [{"name": "c11-%d" % i, "seed": seed * 1000 + i, "n": per, "index": i, "of": n, "tier": tier} for i in range(n)]
 
 
